@@ -7,7 +7,7 @@ from typing import List, Optional, Tuple
 
 from . import sym
 from .model import AnalysisError
-from .sym import T, const
+from .sym import T, const, param
 
 FILTER = T("builtin", ("filter",))
 MAP = T("builtin", ("map",))
@@ -245,3 +245,31 @@ def in_language(t: T) -> bool:
             if not (f.op == "builtin" and f.a[0] in LANG_CALLS):
                 return False
     return True
+
+
+def line_builder(repo, interp, public: str, conventional: str):
+    """The private method that renders one line of a `formatted_*` listing, found through the public method's own
+    `map(<builder>, ...)` stage (so that renaming the helper does not lose the anchor).  Returns its name."""
+    ci = repo.cls("pykdebugparser", "PyKdebugParser")
+    SELF = param("self")
+    fn = ci.methods.get(public)
+    if fn is None:
+        raise AnalysisError(f"anchor vanished: PyKdebugParser.{public}")
+    rec = interp.run(ci.module, fn, self_cls=ci)
+    try:
+        _, stages = parse(rec.return_term())
+    except AnalysisError:
+        stages = []
+    maps = [s_ for s_ in stages if s_.kind == "map"]
+    if maps:
+        f = maps[-1].fn
+        if f.op == "attr" and f.a[0] == SELF and f.a[1] in ci.methods:
+            return f.a[1]
+        # map(lambda x: self.<builder>(x, ...), ...): the call made in the public method's own frame with the bound element
+        for c in rec.calls:
+            if c.func.op == "attr" and c.func.a[0] == SELF and c.func.a[1] in ci.methods and c.where.endswith("." + public) \
+                    and c.args and c.args[0].op in ("bound", "elem"):
+                return c.func.a[1]
+    if conventional in ci.methods:
+        return conventional
+    raise AnalysisError(f"anchor vanished: the line builder of PyKdebugParser.{public}")
